@@ -98,4 +98,9 @@ Supported(maxm) ==
     \cup {G(t, PathK(b, n)) : t \in {"MultiPoint", "LineString"}, b \in {0, 3}, n \in 1..3}
     \cup {G(t, PathsK(1, v)) : t \in {"MultiLineString", "Polygon"}, v \in VecsFrom(1, maxm, {1, 2, 3})}
     \cup {G("MultiPolygon", [p \in DOMAIN vv |-> PathsK(3 * p, vv[p])]) : vv \in VecsFrom(1, maxm, VecsFrom(1, 2, {1, 3}))}
+(* C06 only: empty members after a non-empty first member ("at least one vertex in its first member", "arbitrary member counts") *)
+WithEmpties(maxm) ==
+    {G(t, PathsK(1, v)) : t \in {"MultiLineString", "Polygon"}, v \in {w \in VecsFrom(2, maxm, {0, 2}) : w[1] > 0}}
+    \cup {G("MultiPolygon", [p \in DOMAIN vv |-> PathsK(3 * p, vv[p])]) :
+              vv \in {w \in VecsFrom(1, 2, VecsFrom(0, 2, {0, 2})) : Len(w[1]) > 0 /\ w[1][1] > 0}}
 =============================================================================
